@@ -91,6 +91,7 @@ def _ioerror(code):
 #   ["random", bytes]    arbitrary non-empty bytes instead of the response
 #   ["wrongcode", d]     response code off by d
 #   ["payload", k]       well-formed response whose payload is cut to k bytes
+#                        (k < 0: -k surplus bytes appended)
 #   ["nodata"]           (rcs380) a frame that is neither ack nor data
 def _flip(frame, bit):
     f = bytearray(frame)
@@ -181,6 +182,14 @@ class LinkBase(object):
             q.append(b"\x00\x00\xff\x01\xff\x7f\x81\x00")
         else:
             raise SimError("unknown fault %r" % (fault,))
+
+
+def _cutgrow(payload, k):
+    """["payload", k]: k >= 0 cuts the payload to k bytes, k < 0 appends -k
+    surplus bytes (still a well-formed frame)"""
+    if k >= 0:
+        return payload[:k]
+    return bytes(payload) + bytes([0x5A]) * (-k)
 
 
 # --------------------------------------------------------------- PN53x chip
@@ -330,7 +339,7 @@ class Pn53xLink(LinkBase):
             if flt[0] == "status":
                 return ref.build_response(code, bytes([flt[1] & 0xFF]))
             if flt[0] == "payload":
-                return ref.build_response(code, payload[:max(0, flt[1])])
+                return ref.build_response(code, _cutgrow(payload, flt[1]))
             return ref.build_response((code + flt[1]) & 0xFF, payload)
         self._apply(fault, ACK, rsp, mk, ref.ERROR)
 
@@ -371,7 +380,7 @@ class Acr122Link(LinkBase):
                                                   bytes([flt[1] & 0xFF]))
                 if flt[0] == "payload":
                     return ref.acr_build_response(
-                        code, (payload or b"")[:max(0, flt[1])])
+                        code, _cutgrow(payload or b"", flt[1]))
                 return ref.acr_build_response((code + flt[1]) & 0xFF,
                                               payload or b"")
             if fault[0] == "ioerr" and fault[2] == "ack":
@@ -453,7 +462,7 @@ class Rcs380Link(LinkBase):
                 return ref.p100_build_response(code, bytes([st & 0xFF]))
             if flt[0] == "payload":
                 return ref.p100_build_response(code,
-                                               payload[:max(0, flt[1])])
+                                               _cutgrow(payload, flt[1]))
             return ref.p100_build_response((code + flt[1]) & 0xFF, payload)
         self._apply(fault, ACK, rsp, mk, b"\x00\x00\xff\xff\xff")
 
